@@ -1,2 +1,95 @@
-From Coq Require Import ZArith List Bool.
+(* C08 property theorems. Nothing but statements closed by `exact lemma` and Print Assumptions.
+   PARTIAL: the theorems are about the model (reference semantics L1 and chunk-stream operators L2 of Model.v);
+   the repository's operators are tied to it by the black-box correspondence only (props/C08/NOTES.md). *)
+From Coq Require Import ZArith List Bool Permutation Sorted.
 From OG Require Import C08.Model C08.Proofs.
+Import ListNotations.
+
+(* Every operator that is a state machine over rows gives the same output and final state for every cut of its
+   input stream into chunks (chunk sizes arbitrary, cuts may fall inside a group or a time bucket). *)
+Theorem C08_machine_chunking_invariant : forall {X Y St} (step : St -> X -> St * list Y) sizes st xs,
+  run_chunks step st (cut sizes xs) = run step st xs.
+Proof. exact @machine_chunking_invariant. Qed.
+Print Assumptions C08_machine_chunking_invariant.
+
+(* Aggregation with the one-chunk look-ahead of StreamAggregateTransform (the pending group / time window is
+   emitted with its chunk unless the next chunk continues it): flatten (agg (cut c rows)) = agg_spec rows. *)
+Theorem C08_agg_chunking_invariant : forall {K V A} (keq : K -> K -> bool) (inj : V -> A) (op : A -> A -> A) sizes rows,
+  concat (agg_chunks keq inj op (same_group keq) None (cut sizes rows)) = agg_spec keq inj op rows.
+Proof. exact @agg_chunking_invariant_lemma. Qed.
+Print Assumptions C08_agg_chunking_invariant.
+
+Theorem C08_limit_chunking_invariant : forall {X} (off lim : nat) sizes (xs : list X),
+  snd (run_chunks (limit_step off lim) 0%nat (cut sizes xs)) = firstn lim (skipn off xs).
+Proof. exact @limit_chunking_invariant_lemma. Qed.
+Print Assumptions C08_limit_chunking_invariant.
+
+Theorem C08_fill_chunking_invariant : forall i m aggs sizes st rows,
+  run_chunks (fill_step i m aggs) st (cut sizes rows) = run (fill_step i m aggs) st rows.
+Proof. exact fill_chunking_invariant_lemma. Qed.
+Print Assumptions C08_fill_chunking_invariant.
+
+(* k-way merge of the per-reader streams: sorted, and exactly the rows of the inputs *)
+Theorem C08_merge_k_sorted_perm : forall ls,
+  Forall (Sorted row_le) ls -> Sorted row_le (merge_k ls) /\ Permutation (merge_k ls) (concat ls).
+Proof. intros ls H. split; [exact (merge_k_sorted ls H) | exact (merge_k_perm ls)]. Qed.
+Print Assumptions C08_merge_k_sorted_perm.
+
+(* partial aggregates: for a commutative monoid the answer does not depend on how the rows are partitioned over
+   parallel readers, nor on the order inside or between the parts *)
+Theorem C08_split_invariant : forall {A} (op : A -> A -> A) (e : A),
+  (forall a b c, op a (op b c) = op (op a b) c) -> (forall a b, op a b = op b a) -> (forall a, op e a = a) ->
+  forall parts all, Permutation (concat parts) all -> mfold op e (map (mfold op e) parts) = mfold op e all.
+Proof. exact @split_invariant_monoid. Qed.
+Print Assumptions C08_split_invariant.
+
+(* instances: count and sum (Z,+,0); mean carried as (sum,count) *)
+Theorem C08_split_invariant_sum : forall parts all,
+  Permutation (concat parts) all -> mfold Z.add 0%Z (map (mfold Z.add 0%Z) parts) = mfold Z.add 0%Z all.
+Proof. exact (split_invariant_monoid Z.add 0%Z Z.add_assoc Z.add_comm Z.add_0_l). Qed.
+Theorem C08_split_invariant_mean : forall parts all,
+  Permutation (concat parts) all ->
+  mfold pair_add (0, 0)%Z (map (mfold pair_add (0, 0)%Z) parts) = mfold pair_add (0, 0)%Z all.
+Proof. exact (split_invariant_monoid pair_add (0, 0)%Z pair_add_assoc pair_add_comm pair_add_unit). Qed.
+Print Assumptions C08_split_invariant_mean.
+
+(* a descending scan aggregates to the same value *)
+Theorem C08_agg_desc_scan : forall {A} (op : A -> A -> A) (e : A),
+  (forall a b c, op a (op b c) = op (op a b) c) -> (forall a b, op a b = op b a) ->
+  forall l, mfold op e (rev l) = mfold op e l.
+Proof. exact @mfold_rev. Qed.
+
+(* the reference semantics: a descending query (without limit/offset) is the ascending answer reversed -
+   groups in reverse order, rows of each group in reverse order - for every fill mode *)
+Theorem C08_desc_is_rev_asc : forall db q,
+  has_limit q = false -> eval_query db (set_desc q true) = rev_answer (eval_query db (set_desc q false)).
+Proof. exact desc_is_rev_asc_lemma. Qed.
+Print Assumptions C08_desc_is_rev_asc.
+
+(* L2 = L1, PARTIAL. Proved: (i) the limit stage of the pipeline computes L1's limit_rows for every chunking;
+   (ii) L1's fill over a concatenation of chunks is the fill of the chunks with the previous values carried.
+   Missing: the aggregation stage (agg_spec over the (group,bucket)-keyed time-ordered scan = L1's per-bucket
+   agg_cell over filtered points), the equality merge_k = sort_rows (uniqueness of sorted permutations), and the
+   composition of the stages into one pipeline theorem. *)
+Theorem C08_pipeline_refines_eval_partial :
+  (forall q sizes rows, (0 <? q_limit q)%Z = true ->
+     limit_rows q rows = snd (run_chunks (limit_step (Z.to_nat (q_offset q)) (Z.to_nat (q_limit q))) 0%nat (cut sizes rows)))
+  /\
+  (forall m aggs a b prev,
+     fill_rows m aggs prev (a ++ b) =
+     fill_rows m aggs prev a ++ fill_rows m aggs (fold_left (fun p r => snd (fill_cells m aggs p (snd r))) a prev) b).
+Proof.
+  split.
+  - intros q sizes rows H. unfold limit_rows. rewrite H. symmetry. apply limit_chunking_invariant_lemma.
+  - exact fill_rows_app.
+Qed.
+Print Assumptions C08_pipeline_refines_eval_partial.
+
+(* non-vacuity: a concrete data base and queries *)
+Example C08_example :
+  let db : database := [([1%Z], [(1, [Some 12]); (2, [Some 20]); (7, [Some 32])]%Z);
+                        ([2%Z], [(2, [Some 72]); (6, [Some 8])]%Z)] in
+  let q := mkQ (SelAgg [(FSum, 0%nat, 8%Z)]) (Some 0%Z) (Some 14%Z) PTrue [] 5%Z FillPrev 0%Z 0%Z false in
+  eval_query db q = [([], [(0, [CVal 104]); (5, [CVal 40]); (10, [CVal 40])]%Z)] /\
+  eval_query db (set_desc q true) = [([], [(10, [CVal 40]); (5, [CVal 40]); (0, [CVal 104])]%Z)].
+Proof. vm_compute. split; reflexivity. Qed.
